@@ -38,6 +38,12 @@ DeclV(init, has) == [k |-> "Decl", name |-> "v", quals |-> <<>>, align |-> <<>>,
 PragmaP == [k |-> "Pragma", string |-> "p"]
 PragmaOp == [k |-> "Pragma", string |-> [k |-> "Constant", type |-> "string", value |-> "\"q\""]]
 
+PLine == <<T("\n#pragma p\n")>>
+POp   == <<T("_Pragma"), T("("), T("\"q\""), T(")")>>
+PragmaRuns == { [n |-> "lo", t |-> PLine \o POp, v |-> <<PragmaP, PragmaOp>>], [n |-> "ol", t |-> POp \o PLine, v |-> <<PragmaOp, PragmaP>>],
+                [n |-> "oo", t |-> POp \o POp, v |-> <<PragmaOp, PragmaOp>>], [n |-> "lol", t |-> PLine \o POp \o PLine, v |-> <<PragmaP, PragmaOp, PragmaP>>],
+                [n |-> "olo", t |-> POp \o PLine \o POp, v |-> <<PragmaOp, PragmaP, PragmaOp>>], [n |-> "ool", t |-> POp \o POp \o PLine, v |-> <<PragmaOp, PragmaOp, PragmaP>>] }
+RunOf(k) == CHOOSE run \in PragmaRuns : k = "PragmaRun:" \o run.n
 \* productions of a statement hole; c = closed
 StmtProds(c, sub) ==
   { [n |-> "expr",     cost |-> 1, r |-> <<LEAF, T(";")>>],
@@ -66,7 +72,9 @@ StmtProds(c, sub) ==
   \cup (IF ~sub THEN {} ELSE
         { [n |-> "pragma_sub", cost |-> 1, r |-> <<T("\n#pragma p\n"), <<"S", c, FALSE>>, R("PragmaWrap", 1)>>],
           [n |-> "pragmaop_sub", cost |-> 1, r |-> <<T("_Pragma"), T("("), T("\"q\""), T(")"), <<"S", c, FALSE>>, R("PragmaOpWrap", 1)>>],
-          [n |-> "pragma2_sub", cost |-> 1, r |-> <<T("\n#pragma p\n"), T("\n#pragma p\n"), <<"S", c, FALSE>>, R("Pragma2Wrap", 1)>>] })
+          [n |-> "pragma2_sub", cost |-> 1, r |-> <<T("\n#pragma p\n"), T("\n#pragma p\n"), <<"S", c, FALSE>>, R("Pragma2Wrap", 1)>>] }
+        \* runs of both kinds in every order: all of them are wrapped, in source order, with the one statement that follows
+        \cup { [n |-> "pragmarun_" \o run.n, cost |-> 1, r |-> run.t \o << <<"S", c, FALSE>>, R("PragmaRun:" \o run.n, 1) >>] : run \in PragmaRuns })
 
 \* productions of a block item
 ItemProds ==
@@ -123,6 +131,8 @@ Build(k, a) ==
     [] k = "PragmaWrap"   -> [k |-> "Compound", block_items |-> << PragmaP, a[1] >>, xitems |-> << PragmaP, a[1] >>]
     [] k = "PragmaOpWrap" -> [k |-> "Compound", block_items |-> << PragmaOp, a[1] >>, xitems |-> << PragmaOp, a[1] >>]
     [] k = "Pragma2Wrap"  -> [k |-> "Compound", block_items |-> << PragmaP, PragmaP, a[1] >>, xitems |-> << PragmaP, PragmaP, a[1] >>]
+    [] k \in { "PragmaRun:" \o run.n : run \in PragmaRuns } ->
+         [k |-> "Compound", block_items |-> Append(RunOf(k).v, a[1]), xitems |-> Append(RunOf(k).v, a[1])]
     [] k = "Decl0"     -> DeclV(Nil, FALSE)
     [] k = "Decl"      -> DeclV(a[1], TRUE)
     [] k = "StaticAssert" -> [k |-> "StaticAssert", cond |-> a[1], message |-> [k |-> "Constant", type |-> "string", value |-> "\"m\""]]
